@@ -26,6 +26,7 @@ def evaluate(root, props=None):
         spec = PROPERTIES[p]
         viol = set()
         n = 0
+        errs = []
         try:
             for entry in spec["rules"]:
                 rule, clause = entry[0], entry[1]
@@ -40,12 +41,16 @@ def evaluate(root, props=None):
                         cache[ck] = AnalysisError("internal error in %s: %s: %s" % (rule.__name__, type(e).__name__, e))
                 res = cache[ck]
                 if isinstance(res, Exception):
-                    raise res
+                    errs.append(str(res))
+                    continue
                 for o in res:
                     n += 1
                     if not o.ok:
                         viol.add(o.key)
-            out[p] = {"violated": sorted(viol), "n": n}
+            if errs and not viol:
+                out[p] = {"error": "; ".join(errs)}
+            else:
+                out[p] = {"violated": sorted(viol), "n": n, "notes": errs}
         except AnalysisError as e:
             out[p] = {"error": str(e)}
     return out
@@ -85,4 +90,6 @@ def diff_against(baseline, res):
         extra = sorted(set(r["violated"]) - set(b.get("violated", [])))
         if extra:
             new[p] = extra
+        elif r.get("notes") and r.get("notes") != b.get("notes"):
+            errors[p] = "; ".join(r["notes"])
     return new, errors
